@@ -15,7 +15,7 @@ CLAIMED = {
             "short-s signatures, all six flags in both preimage modes and signature pairs are judged by TLC evaluating the same spec "
             "(range, low-S, verification under both key encodings, strict DER, flag byte, nonce clause) plus OpenSSL as standard verifier.",
             "Trusts TLC, JDK BigInteger/SHA-256 behind Native (self-tested each run), OpenSSL for the 'standard verifier' column, and that "
-            "small curves exercise the same statements (curve constants are default arguments rebound by the harness). Full-size inputs are sampled, not exhaustive.",
+            "small curves exercise the same statements (curve constants are default arguments rebound by the harness). Full-size inputs are sampled, not exhaustive. The small-curve replay is applied only to code that follows the rebound constants (probed on every run, eccrig.retarget_applies); for an implementation with private curve constants it is skipped with a NOTE and the full-size stages decide.",
             "DESIGN.md 5/C01"),
     "C02": ("TLA+ spec Ecdsa.tla (Verify, DerDec, Sec1Dec, EnsureLowS): TLC exhaustive over ALL (r,s) tuples on small curves (MC_Ecdsa verify "
             "cases), every tuple replayed into the retargeted bits.ecmath.verify; secp256k1 mutation neighbourhoods validated by TLC (Trace_Ecc)",
